@@ -101,6 +101,13 @@ Theorem C17_has_subseq_no_panic : forall s t, is_panic (go_has_subseq s t) = fal
 Proof. exact go_has_subseq_no_panic. Qed.
 Print Assumptions C17_has_subseq_no_panic.
 
+(* randint with two machine-int bounds: neither rand.Intn nor big.Int.Rand is
+   handed a non-positive bound, also when high - low overflows the machine int *)
+Theorem C17_randint_no_panic : forall low high,
+  int64 low -> int64 high -> is_panic (randint_small low high) = false.
+Proof. exact randint_small_no_panic. Qed.
+Print Assumptions C17_randint_no_panic.
+
 (* the oracle demands exactly "ended normally or with an Elvish exception" *)
 Theorem C17_oracle_sound : forall (A : Type) (o : obs A), check_C17 o = true -> o <> OCrash.
 Proof. exact @check_C17_sound. Qed.
